@@ -94,11 +94,18 @@ type Exec struct {
 	usedMonitor bool
 	globalVal   map[string]Term
 	lockSnap    *State
+	methodVals  map[string]methodVal
+	litVals     map[string]*ast.FuncLit
+}
+
+type methodVal struct {
+	fn   *types.Func
+	recv Term
 }
 
 func NewExec(p *Program, smtStr bool) *Exec {
 	return &Exec{prog: p, vc: NewVC(smtStr), obIndex: map[string]*Obligation{}, init0: map[string]Term{}, noteSet: map[string]bool{},
-		dropped: map[string]bool{}, externs: map[string]bool{}, inlined: map[string]bool{}, havocs: map[string]bool{}, maxInl: 6, safety: true, globalVal: map[string]Term{}}
+		dropped: map[string]bool{}, externs: map[string]bool{}, inlined: map[string]bool{}, havocs: map[string]bool{}, maxInl: 6, safety: true, globalVal: map[string]Term{}, methodVals: map[string]methodVal{}, litVals: map[string]*ast.FuncLit{}}
 }
 
 func (e *Exec) note(format string, a ...any) {
